@@ -37,7 +37,7 @@ LEVEL_TEXT = ("Seeded search over single deviations of every message index of "
 LEVEL_NOTE = ("Trusted: model/grammar.py, the interposer.  The byzantine "
               "peer is built from tlslite's own encoder.  Only single "
               "deviations (plus the honest twin) are explored, not pairs.")
-BUDGET = {"quick": 60, "thorough": 1200}
+BUDGET = {"quick": 300, "thorough": 1200}
 CHUNK = 8
 PROBES = ["skip", "dup", "swap", "insert", "replace", "append",
           "reneg_client_hello",
